@@ -656,7 +656,7 @@ fn gen_info(rng: &mut Rng) -> String {
 }
 
 pub fn generate(thorough: bool, rng: &mut Rng, ops: &mut Vec<String>, stats: &mut Stats) {
-    let (n_plan, n_info, n_hist) = if thorough { (12_000, 4000, 1500) } else { (1200, 400, 64) };
+    let (n_plan, n_info, n_hist) = if thorough { (12_000, 4000, 1500) } else { (1200, 400, 120) };
     // the real histories come first: `check` examines the first disagreements it meets, and a failing history is a
     // failing input of the property (a differing plan observation is only a model/implementation disagreement)
     for _ in 0..n_hist {
